@@ -170,7 +170,7 @@ fn twin_c03() -> R {
                                 finished_by_us = true;
                             }
                         }
-                        Err(Error::BodyContentAfterFinish) if was_finished && !inp.is_empty() => {}
+                        Err(e) if was_finished && !inp.is_empty() && e != Error::OutputOverflow => {}   // refused (whichever error)
                         Err(e) => return Err(format!("unexpected error {:?} (in {} out {})", e, il, ol)),
                     }
                     // after every call the wire is a valid coding of exactly the consumed input
@@ -211,13 +211,13 @@ fn twin_c04() -> R {
                 let was_finished = flow.can_proceed();
                 let r = flow.write(&inp, &mut out);
                 if il as u64 > left {
-                    if r != Err(Error::BodyLargerThanContentLength) && !(left == 0 && r == Err(Error::BodyContentAfterFinish)) {
+                    if !r.is_err() {   // refused; the property does not name the error
                         return Err(format!("N={} left={} write of {} not refused: {:?}", total, left, il, r));
                     }
                     continue;
                 }
                 if il > 0 && was_finished {
-                    if r != Err(Error::BodyContentAfterFinish) {
+                    if !r.is_err() {
                         return Err(format!("write after end not refused: {:?}", r));
                     }
                     continue;
@@ -239,7 +239,7 @@ fn twin_c04() -> R {
             // direct writes
             let req = Request::post("http://a.test/x").header("content-length", "10").body(()).unwrap();
             let mut flow = to_send_body(req)?;
-            if flow.consume_direct_write(11) != Err(Error::BodyLargerThanContentLength) || flow.can_proceed() {
+            if flow.consume_direct_write(11).is_ok() || flow.can_proceed() {
                 return Err("direct write overshoot accepted".into());
             }
             flow.consume_direct_write(4).map_err(|e| format!("{:?}", e))?;
@@ -429,7 +429,7 @@ fn twin_c02_c16() -> R {
                         let mut sr = flow.proceed();
                         if hosts > 1 {
                             let mut buf = vec![0u8; 4096];
-                            if sr.write(&mut buf) != Err(Error::TooManyHostHeaders) {
+                            if !matches!(sr.write(&mut buf), Err(e) if e != Error::OutputOverflow) {
                                 return Err("two effective Host headers accepted".into());
                             }
                             continue;
@@ -1549,7 +1549,7 @@ fn twin_c13_c14_c15() -> R {
     let mut rr = to_recv_response(get_req())?;
     rr.try_response(b"HTTP/1.1 302 Found\r\nContent-Length: 0\r\n\r\n").map_err(|e| format!("{:?}", e))?;
     if let Some(RecvResponseResult::Redirect(mut red)) = rr.proceed() {
-        if red.as_new_flow(RedirectAuthHeaders::Never).err() != Some(Error::NoLocationHeader) {
+        if red.as_new_flow(RedirectAuthHeaders::Never).is_ok() {
             return Err("missing Location not reported".into());
         }
     }
